@@ -56,6 +56,13 @@ CHECKS = {
         technique="Lean 4 theorems about a hand-written exact model + exact differential correspondence on dyadic data",
         ref="DESIGN.md §5 C18",
     ),
+    "C19": dict(
+        category="proof",
+        text="resultClass (model of the class branch of locate_droplets, from_droplet's keyword merge and refine_droplet's promotion) equals the property's table for ALL mode counts and the complete finite product of grid family x dimension x width x refine, including the documented ValueError for modes in 1-D (resultClass_spec); all droplets of one result share class/amplitude count/width flag (layout_uniform); a supplied width is carried by every unrefined result (width_carried). The complete table is enumerated on the real locate_droplets (class, amplitude count, width value, dim, single dtype, Emulsion.data formed) and compared with the model and with the table written out independently in the harness. This exposed defect D4 (fixed in /repo d8763eb).",
+        note="Trusted: Lean kernel; propext/Quot.sound; the harness enumerates modes {0,1,2,3,8} (the theorem covers all naturals); refinement itself is scipy's (only the class/shape of its result is observed here).",
+        technique="Lean 4 theorem over a decision-table model + complete enumeration on the implementation",
+        ref="DESIGN.md §5 C19",
+    ),
 }
 
 NOT_APPLICABLE = {}
